@@ -365,38 +365,45 @@ def backproject (interp : Nat → (Int → R) → R → R) (D : Nat) (filtered :
     let acc := if circle && outsideCircle radius r c then Num.zero else acc   -- recon[:, mask] = 0
     acc * (Num.pi / Num.ofNat (2 * A))                                       -- recon *= pi / (2 * A)
 
-/-- iradon_torch(sinograms[b], theta, output_size=None, filter_name, circle) for one sinogram
-`[A][N]`.  `thetas = none` is `theta=None`: `arange(A) * (180.0 / A)`. -/
-def iradonTorch (sino : List (List R)) (thetas : Option (List R)) (name : FilterName) (circle : Bool) :
+/-- iradon_torch(sinograms[b], theta, output_size=out, filter_name, circle) for one sinogram
+`[A][N]` and an explicit output size.  `thetas = none` is `theta=None`: `arange(A) * (180.0 / A)`. -/
+def iradonTorchOut (sino : List (List R)) (thetas : Option (List R)) (name : FilterName) (circle : Bool) (out : Nat) :
     List (List R) :=
   let A := sino.length
   let N := (sino.headD []).length
   let th := thetas.getD ((List.range A).map fun i => Num.ofNat i * (Num.ofNat 180 / Num.ofNat A))
-  let out := outputSize (R := R) N circle
   -- circle: pad the detector to the diagonal (F.pad(sinograms, (pad_before, diagonal - N - pad_before)))
   let D := if circle then diagSize (R := R) N else N
   let rows := if circle then sino.map (circleToSquare D N) else sino
   let P := paddedSize D
   let filt := fourierFilterTorch name P
   let filtered := rows.map (filterRow filt P D)
-  -- t_idx = t + (N // 2)
+  -- t_idx = t + (N // 2); radius = output_size // 2 (also the radius of the circle mask)
   backproject (fun D v t => interpTorch D v (t + Num.ofNat (D / 2))) D filtered th out circle
 
+/-- `output_size=None`: the default output size -/
+def iradonTorch (sino : List (List R)) (thetas : Option (List R)) (name : FilterName) (circle : Bool) :
+    List (List R) :=
+  iradonTorchOut sino thetas name circle (outputSize (R := R) (sino.headD []).length circle)
 
-/-- skimage.transform.iradon(radon_image, theta, filter_name, interpolation="linear", circle)
-with `radon_image = sino.T`.  `thetas = none`: `np.linspace(0, 180, A, endpoint=False)`. -/
-def iradonSk (sino : List (List R)) (thetas : Option (List R)) (name : FilterName) (circle : Bool) :
+/-- skimage.transform.iradon(radon_image, theta, output_size=out, filter_name,
+interpolation="linear", circle) with `radon_image = sino.T`.  `thetas = none`:
+`np.linspace(0, 180, A, endpoint=False)`. -/
+def iradonSkOut (sino : List (List R)) (thetas : Option (List R)) (name : FilterName) (circle : Bool) (out : Nat) :
     List (List R) :=
   let A := sino.length
   let N := (sino.headD []).length
   let th := thetas.getD ((List.range A).map fun i => npLinspaceOpen Num.zero (Num.ofNat 180) A i)
-  let out := outputSize (R := R) N circle
   let D := if circle then diagSize (R := R) N else N      -- _sinogram_circle_to_square
   let rows := if circle then sino.map (circleToSquare D N) else sino
   let P := paddedSize D
   let filt := fourierFilterSk name P
   let filtered := rows.map (filterRow filt P D)
   backproject npInterp D filtered th out circle
+
+def iradonSk (sino : List (List R)) (thetas : Option (List R)) (name : FilterName) (circle : Bool) :
+    List (List R) :=
+  iradonSkOut sino thetas name circle (outputSize (R := R) (sino.headD []).length circle)
 
 def iradonTorchBatch (sinos : List (List (List R))) (thetas : Option (List R)) (name : FilterName) (circle : Bool) :
     List (List (List R)) :=
